@@ -28,7 +28,7 @@ use crate::{
     connection_provider::{ConnectionProvider, TlsConfig},
     name_server::NameServer,
     name_server_pool::{NameServerPool, NameServerTransportState, PoolContext},
-    net::DnsHandle,
+    net::{DnsError, DnsHandle, ForwardNSData, NetError},
     proto::{
         access_control::{AccessControlSet, AccessControlSetBuilder},
         op::{DnsRequestOptions, Message, Query},
@@ -438,8 +438,46 @@ impl<P: ConnectionProvider> RecursorDnsHandle<P> {
         // TODO: should we change DnsHandle to always be a single response? And build a totally custom handler for other situations?
         let mut response = match response.next().await {
             Some(Ok(r)) => r,
-            Some(Err(error)) => {
+            Some(Err(mut error)) => {
                 warn!(?query, %error, "lookup error");
+                // the records carried by a negative response are subject to the same bailiwick
+                // rule as those of a positive one
+                if let NetError::Dns(DnsError::NoRecordsFound(no_records)) = &mut error {
+                    let in_bailiwick = |record: &Record| is_subzone(&zone, &record.name);
+                    if no_records
+                        .soa
+                        .as_ref()
+                        .is_some_and(|soa| !is_subzone(&zone, &soa.name))
+                    {
+                        no_records.soa = None;
+                        no_records.negative_ttl = None;
+                    }
+                    if let Some(ns) = no_records.ns.take() {
+                        no_records.ns = Some(
+                            ns.iter()
+                                .filter(|data| in_bailiwick(&data.ns))
+                                .map(|data| ForwardNSData {
+                                    ns: data.ns.clone(),
+                                    glue: data
+                                        .glue
+                                        .iter()
+                                        .filter(|r| in_bailiwick(r))
+                                        .cloned()
+                                        .collect(),
+                                })
+                                .collect(),
+                        );
+                    }
+                    if let Some(authorities) = no_records.authorities.take() {
+                        no_records.authorities = Some(
+                            authorities
+                                .iter()
+                                .filter(|r| in_bailiwick(r))
+                                .cloned()
+                                .collect(),
+                        );
+                    }
+                }
                 self.response_cache.insert(query, Err(error.clone()), now);
                 return Err(RecursorError::from(error));
             }
